@@ -1690,9 +1690,6 @@ func c19Gen(r *Rand, tier string) []interface{} {
 			}
 		}
 		for _, cs := range curveSets { // through the handler: Firefox and Tor user agents
-			if len(cs) == 5 && cs[4] == 256 && cs[3] == 25 && cs[2] == 24 {
-				continue // the known five-curve class is replayed from the corpus
-			}
 			add(&c19In{Kind: "mitm", UA: hx("Mozilla/5.0 (X11; Linux) Gecko/20100101 Firefox/55.0"), Info: &c19Info{Version: 771, Ciphers: ffC, Exts: ffE, Comp: "00", Curves: cs}})
 			add(&c19In{Kind: "mitm", UA: hx("Mozilla/5.0 (Windows NT 6.1; rv:52.0) Gecko/20100101 Firefox/52.0"), Info: &c19Info{Version: 771, Ciphers: ffC, Exts: torE, Comp: "00", Curves: cs}})
 		}
@@ -1807,7 +1804,8 @@ func c19Gen(r *Rand, tier string) []interface{} {
 	}
 	// --- header name/value sizes around writePairs' truncation
 	pairs := [][2]int{{20, 10}, {20, 65472}, {20, 65473}, {20, 65471}, {20, 70000}, {65000, 0}, {65000, 492}, {65000, 493}, {65000, 491},
-		{65491, 1}, {65492, 0}, {65492, 1}, {65492, 5}, {65490, 2}, {65490, 3}, {65491, 0}, {40000, 40000}, {127, 128}, {128, 127}}
+		{65491, 1}, {65492, 0}, {65492, 1}, {65492, 5}, {65490, 2}, {65490, 3}, {65491, 0}, {40000, 40000}, {127, 128}, {128, 127},
+		{65493, 0}, {65493, 3}, {65500, 1}, {65501, 2}, {66000, 100}, {131100, 7}} // the last six: a name that leaves no room for the value
 	for _, kv := range pairs {
 		add(&c19In{Kind: "pairs", KLen: kv[0], VLen: kv[1]})
 	}
@@ -1816,7 +1814,7 @@ func c19Gen(r *Rand, tier string) []interface{} {
 		add(&c19In{Kind: "pairs", KLen: k, VLen: c19Max(65500-8-k+r.Range(-3, 3), 0)})
 	}
 	// --- Status header sent by the backend
-	toks := []string{"200", "404", "100", "999", "+200", "abc", "", "20x", "2 00", "9223372036854775808", "200.0", "0x10", "1_0", "٣٠٠", "101", "304", "500", "+", "-"}
+	toks := []string{"200", "404", "100", "999", "99", "1000", "0", "-1", "-200", "1000 OK", "99999999999", "+200", "abc", "", "20x", "2 00", "9223372036854775808", "200.0", "0x10", "1_0", "٣٠٠", "101", "304", "500", "+", "-"}
 	for _, t := range toks {
 		add(&c19In{Kind: "status", Data: hx(t)})
 	}
